@@ -105,6 +105,14 @@ def api_witness(slice_, timeout):
         got = [(r.text, r.resolution.get('value')) for r in recognize_number(q, c)]
         if got != [(q, want)]:
             return {'state': 'counterexample', 'cex': {'w': kind}, 'detail': '%r (%s) -> %r, expected value %s' % (q, c, got, want), 'queries': 1}
+    elif kind == 'F61':
+        from recognizers_date_time import recognize_datetime
+        bad = []
+        for q, c in (('este mês', 'pt-br'), ('We have lived here from the end of 1989', 'en-us'), ('We hope to leave in the next fortnight.', 'en-us'), ('la semana pasada.', 'es-es')):
+            rs = recognize_datetime(q, c, reference=datetime(2016, 11, 9))
+            bad += [(q, v) for r in rs for v in (r.resolution or {}).get('values', []) if not v.get('timex') and v.get('value') != 'not resolved']
+        if bad:
+            return {'state': 'counterexample', 'cex': {'w': kind}, 'detail': 'date range without a TIMEX: %r' % (bad,), 'queries': 1}
     elif kind == 'F37-overlap':
         from recognizers_date_time import recognize_datetime
         sp = _spans(recognize_datetime('明天三天后', 'zh-cn', reference=datetime(2016, 11, 7)))
